@@ -484,6 +484,10 @@ def _to_c_expr(
             if _is_list_type(base_type):
                 _mark_helper("list")
                 return f"__redu_list_get({base}, {index_expr})"
+            if base_type == "String":
+                # Python counts negative indices from the end
+                _mark_helper("str_index")
+                return f"String(__redu_str_get({base}, {index_expr}))"
             return f"{base}[{index_expr}]"
 
         if isinstance(n, ast.List):
@@ -1021,6 +1025,9 @@ def _infer_expr_type(
         )
         if _is_list_type(base_type):
             return _list_element_type(base_type)
+        if base_type == "String":
+            # one character of a string is a string in Python
+            return "String"
         return "int"
 
     if isinstance(node, ast.List):
